@@ -195,6 +195,29 @@ class C15(Prop):
             out.append({"stream": "rt", "tag": "big:rt:" + kind,
                         "input": {"disk": None, "p": pl, "mode": rng.choice(["w", "wt", "wb"]), "enc": "utf-8",
                                   "eol": eol, "rm": "t"}})
+        # --- payloads whose length is an exact multiple of a power-of-two block size (2**12 .. 2**17, once and twice):
+        #     in characters (text path), in bytes after the EOL translation (binary path), as bytes payload, appended
+        for _ in range(10 if quick else 80):
+            size = (1 << rng.choice([12, 13, 16, 16, 16, 17])) * rng.choice([1, 1, 2])
+            shape = rng.choice(["text", "text", "binary", "bytes", "append"])
+            eol = rng.choice(["\n", "\r\n", "\r"])
+            nl = rng.randint(0, 40)
+            if shape == "binary":
+                eol, body = "\r\n", size - 2 * nl      # every '\n' becomes two bytes
+            else:
+                body = size - nl
+            chunks = [rng.randint(0, 200) for _ in range(nl)]
+            rest = body - sum(chunks)
+            chunks.append(rest)
+            text = "\n".join("".join(rng.choice("abcXYZ 019") for _ in range(c)) for c in chunks)
+            if shape == "bytes":
+                pl, mode, rm = {"k": "y", "v": b2s(bytes(rng.randrange(256) for _ in range(size)))}, rng.choice(["b", "wb"]), "b"
+            else:
+                pl, rm = {"k": "s", "v": text}, "t"
+                mode = {"text": rng.choice(["t", "wt", "w"]), "binary": rng.choice(["b", "wb"]), "append": rng.choice(["at", "a"])}[shape]
+            out.append({"stream": "rt", "tag": "big:rt:exact:" + shape,
+                        "input": {"disk": b2s(b"head\n") if shape == "append" else None, "p": pl, "mode": mode, "enc": "utf-8",
+                                  "eol": eol, "rm": rm}})
         # --- save alone, including ill-formed mode strings and unencodable EOLs ---------------
         for _ in range(400 if quick else 6000):
             enc = rng.choice(ENCODINGS)
